@@ -35,14 +35,19 @@ type Case struct {
 	Sim            sim.Case `json:"sim"`
 	CompressUTXO   bool     `json:"compress_utxo"`
 	CompressBlocks bool     `json:"compress_blocks"`
-	MaxDataFile    uint64   `json:"max_data_file,omitempty"` // block data rolls over to a new file beyond this size (0: one file)
+	MaxDataFile    uint64   `json:"max_data_file,omitempty"`   // block data rolls over to a new file beyond this size (0: one file)
+	Observer       bool     `json:"utxo_callbacks,omitempty"`  // UTXO callbacks installed (the client with its wallet on)
 	KeepDataFiles  uint32   `json:"keep_data_files,omitempty"` // the node removes block data files older than that many (0: keeps all)
-	Crash          string   `json:"crash,omitempty"`    // "<name>#<n>"; empty in a generated case = enumerate all
-	Truncate       string   `json:"truncate,omitempty"` // "<file>:<length>" applied after a clean run
+	Crash          string   `json:"crash,omitempty"`           // "<name>#<n>"; empty in a generated case = enumerate all
+	Truncate       string   `json:"truncate,omitempty"`        // "<file>:<length>" applied after a clean run
 }
 
 func (c Case) opts() env.Options {
-	return env.Options{CompressUTXO: c.CompressUTXO, CompressBlocks: c.CompressBlocks, MaxDataFile: c.MaxDataFile, KeepDataFiles: c.KeepDataFiles}
+	o := env.Options{CompressUTXO: c.CompressUTXO, CompressBlocks: c.CompressBlocks, MaxDataFile: c.MaxDataFile, KeepDataFiles: c.KeepDataFiles}
+	if c.Observer { // UTXO callbacks installed, as in the client while its wallet is on
+		o.UTXOCallbacks = env.ObserverCallbacks()
+	}
+	return o
 }
 
 func TestMain(m *testing.M) {
@@ -176,14 +181,14 @@ func lastDatFile(dir string) string {
 }
 
 type verdict struct {
-	OK        bool   `json:"ok"`
-	Err       string `json:"err,omitempty"`
-	TipHeight uint32 `json:"tip_height"`
-	InFlight  int    `json:"in_flight"`
-	Closed    bool   `json:"closed"`
-	Stage     int    `json:"stage"` // 1 reopen, 2 tip identity, 3 unspent set at the recovered tip, 4 after feeding the rest
-	Discarded int    `json:"discarded"` // stored blocks that failed to connect while the node re-applied them at start-up
-	StuckBelow bool  `json:"stuck_below"` // stage 4 ended on a valid block of the history that is not the most-work tip
+	OK         bool   `json:"ok"`
+	Err        string `json:"err,omitempty"`
+	TipHeight  uint32 `json:"tip_height"`
+	InFlight   int    `json:"in_flight"`
+	Closed     bool   `json:"closed"`
+	Stage      int    `json:"stage"`       // 1 reopen, 2 tip identity, 3 unspent set at the recovered tip, 4 after feeding the rest
+	Discarded  int    `json:"discarded"`   // stored blocks that failed to connect while the node re-applied them at start-up
+	StuckBelow bool   `json:"stuck_below"` // stage 4 ended on a valid block of the history that is not the most-work tip
 }
 
 func readLog(fn string) (inflight int, closed bool, diverged string) {
@@ -635,6 +640,7 @@ func genCase(t *rapid.T) Case {
 	if c.MaxDataFile == 6000 {
 		c.KeepDataFiles = uint32(rapid.SampledFrom([]int{0, 1, 1, 2}).Draw(t, "keepdatafiles"))
 	}
+	c.Observer = rapid.IntRange(0, 2).Draw(t, "observer") == 0
 	return c
 }
 
@@ -675,6 +681,7 @@ func genReorgAfterSnapshot(t *rapid.T) Case {
 	if c.MaxDataFile == 6000 {
 		c.KeepDataFiles = uint32(rapid.SampledFrom([]int{0, 1, 1, 2}).Draw(t, "keepdatafiles"))
 	}
+	c.Observer = rapid.IntRange(0, 2).Draw(t, "observer") == 0
 	return c
 }
 
@@ -740,6 +747,7 @@ func genFailedReorgUnflushed(t *rapid.T) Case {
 	if c.MaxDataFile == 6000 {
 		c.KeepDataFiles = uint32(rapid.SampledFrom([]int{0, 1, 1, 2}).Draw(t, "keepdatafiles"))
 	}
+	c.Observer = rapid.IntRange(0, 2).Draw(t, "observer") == 0
 	return c
 }
 
@@ -827,7 +835,6 @@ func TestCrashPoints(t *testing.T) {
 		}
 	})
 }
-
 
 // Truncation family: after a snapshot the workload connects more blocks, flushes them to the block
 // files and the process ends without a shutdown; then the index / data file is cut at every record
